@@ -33,8 +33,115 @@ pub struct State {
     pub writes: usize,
 }
 pub static SCHED: Mutex<Option<State>> = Mutex::new(None);
+/// component-specific: which events are traced (all are yield points), what a `crit` record reports
+/// (kind, addr, width) -> is this access part of the traced model (yield point + trace line)?
+pub static KEEP: Mutex<Option<fn(u8, usize, u8) -> bool>> = Mutex::new(None);
+pub static CRIT_INFO: Mutex<Option<Box<dyn Fn() -> String + Send>>> = Mutex::new(None);
+thread_local! { static IN_CRIT_INFO: Cell<bool> = const { Cell::new(false) }; }
+/// address ranges of the executable image (statics such as LazyLock / Once state words)
+pub static IMAGE: Mutex<Vec<(usize, usize)>> = Mutex::new(Vec::new());
+pub fn load_image_ranges() {
+    let exe = std::env::current_exe().map(|p| p.to_string_lossy().to_string()).unwrap_or_default();
+    let maps = std::fs::read_to_string("/proc/self/maps").unwrap_or_default();
+    let mut v = vec![];
+    let mut last_exe_end = 0usize;
+    for l in maps.lines() {
+        let r: Vec<&str> = l.split(' ').next().unwrap().split('-').collect();
+        let (a, b) = (usize::from_str_radix(r[0], 16).unwrap(), usize::from_str_radix(r[1], 16).unwrap());
+        if l.ends_with(&exe) {
+            v.push((a, b));
+            last_exe_end = b;
+        } else if a == last_exe_end && !l.contains('[') && l.trim_end().split(' ').filter(|x| !x.is_empty()).count() == 5 {
+            // anonymous mapping directly behind the image: .bss
+            v.push((a, b));
+            last_exe_end = b;
+        }
+    }
+    *IMAGE.lock().unwrap() = v;
+}
+pub fn is_static(addr: usize) -> bool {
+    IMAGE.lock().unwrap().iter().any(|(a, b)| addr >= *a && addr < *b)
+}
+pub fn crit_info() -> String {
+    if IN_CRIT_INFO.with(|c| c.get()) {
+        return String::new();
+    }
+    IN_CRIT_INFO.with(|c| c.set(true));
+    let r = match CRIT_INFO.lock().unwrap().as_ref() { Some(f) => f(), None => String::new() };
+    IN_CRIT_INFO.with(|c| c.set(false));
+    r
+}
+pub fn in_crit_info() -> bool {
+    IN_CRIT_INFO.with(|c| c.get())
+}
 pub static CV: Condvar = Condvar::new();
-thread_local! { pub static TID: Cell<Option<usize>> = const { Cell::new(None) }; }
+thread_local! {
+    pub static TID: Cell<Option<usize>> = const { Cell::new(None) };
+    /// > 0 while the thread holds a pthread mutex (intercepted below): no yield, no trace inside
+    pub static CRIT: Cell<usize> = const { Cell::new(0) };
+}
+
+// ---------------------------------------------------------------------------------------------
+// pthread mutex interception.  iceoryx2's process-local storages guard a global map with a
+// posix mutex; a logical thread parked inside such a critical section would deadlock the baton
+// scheduler.  The calls below forward to libc and count the nesting depth, the hooks do not
+// yield (and do not trace) while the depth is positive: the critical section is one atomic step,
+// reported by a `crit` record when the outermost mutex is released.
+mod interpose {
+    use super::{CRIT, TID};
+    use core::ffi::{c_char, c_int, c_void};
+    unsafe extern "C" {
+        fn dlsym(handle: *mut c_void, symbol: *const c_char) -> *mut c_void;
+    }
+    const RTLD_NEXT: *mut c_void = -1isize as *mut c_void;
+    type F1 = unsafe extern "C" fn(*mut c_void) -> c_int;
+    type F2 = unsafe extern "C" fn(*mut c_void, *const c_void) -> c_int;
+    unsafe fn real(name: &'static [u8]) -> *mut c_void {
+        unsafe { dlsym(RTLD_NEXT, name.as_ptr() as *const c_char) }
+    }
+    fn enter() {
+        if TID.with(|t| t.get()).is_some() {
+            CRIT.with(|c| c.set(c.get() + 1));
+        }
+    }
+    fn leave() {
+        if let Some(tid) = TID.with(|t| t.get()) {
+            let d = CRIT.with(|c| { let v = c.get().saturating_sub(1); c.set(v); v });
+            if d == 0 && !super::in_crit_info() {
+                let info = super::crit_info();
+                super::record(tid, format!("crit {info}").trim_end().to_string());
+            }
+        }
+    }
+    #[unsafe(no_mangle)]
+    pub unsafe extern "C" fn pthread_mutex_lock(m: *mut c_void) -> c_int {
+        let f: F1 = unsafe { core::mem::transmute(real(b"pthread_mutex_lock\0")) };
+        let r = unsafe { f(m) };
+        if r == 0 { enter(); }
+        r
+    }
+    #[unsafe(no_mangle)]
+    pub unsafe extern "C" fn pthread_mutex_trylock(m: *mut c_void) -> c_int {
+        let f: F1 = unsafe { core::mem::transmute(real(b"pthread_mutex_trylock\0")) };
+        let r = unsafe { f(m) };
+        if r == 0 { enter(); }
+        r
+    }
+    #[unsafe(no_mangle)]
+    pub unsafe extern "C" fn pthread_mutex_timedlock(m: *mut c_void, t: *const c_void) -> c_int {
+        let f: F2 = unsafe { core::mem::transmute(real(b"pthread_mutex_timedlock\0")) };
+        let r = unsafe { f(m, t) };
+        if r == 0 { enter(); }
+        r
+    }
+    #[unsafe(no_mangle)]
+    pub unsafe extern "C" fn pthread_mutex_unlock(m: *mut c_void) -> c_int {
+        let f: F1 = unsafe { core::mem::transmute(real(b"pthread_mutex_unlock\0")) };
+        let r = unsafe { f(m) };
+        leave();
+        r
+    }
+}
 pub const MAX_STEPS: usize = 200_000;
 
 fn next_rand(s: &mut State) -> u64 {
@@ -90,9 +197,17 @@ fn yield_point(tid: usize) {
     g.as_mut().unwrap().status[tid] = Status::Running;
 }
 
-fn before(_kind: u8, _addr: usize) {
+fn keep(kind: u8, addr: usize, width: u8) -> bool {
+    match *KEEP.lock().unwrap() {
+        Some(k) => k(kind, addr, width),
+        None => true,
+    }
+}
+fn before(kind: u8, addr: usize, width: u8) {
     if let Some(tid) = TID.with(|t| t.get()) {
-        yield_point(tid);
+        if CRIT.with(|c| c.get()) == 0 && !in_crit_info() && keep(kind, addr, width) {
+            yield_point(tid);
+        }
     }
 }
 pub fn kind_name(k: u8) -> &'static str {
@@ -103,12 +218,18 @@ pub fn ord_name(o: u8) -> &'static str {
 }
 fn after(ev: &Event) {
     if let Some(tid) = TID.with(|t| t.get()) {
+        if CRIT.with(|c| c.get()) > 0 || in_crit_info() {
+            return;
+        }
+        if !keep(ev.kind, ev.addr, ev.width) {
+            return;
+        }
         let mut g = SCHED.lock().unwrap();
         let s = g.as_mut().unwrap();
         let loc = match s.objects.iter().enumerate().find(|(_, (b, sz))| ev.addr >= *b && ev.addr < b + sz) {
             Some((i, (b, _))) => format!("o{}+{}", i, ev.addr - b),
             None if ev.kind == 14 => "-".to_string(),
-            None => "ext".to_string(),
+            None => format!("x{:x}", ev.addr),
         };
         let line = match ev.kind {
             0 => format!("T{tid} load {loc} {} v={}", ord_name(ev.ord), ev.old),
@@ -164,7 +285,10 @@ pub fn execute(bodies: Vec<Box<dyn FnOnce(usize) + Send>>, schedule: Vec<usize>,
                 }
                 g.as_mut().unwrap().status[tid] = Status::Running;
             }
-            body(tid);
+            let r = std::panic::catch_unwind(std::panic::AssertUnwindSafe(|| body(tid)));
+            if r.is_err() {
+                record(tid, "PANIC".to_string());
+            }
             TID.with(|t| t.set(None));
             let mut g = SCHED.lock().unwrap();
             let s = g.as_mut().unwrap();
